@@ -133,7 +133,8 @@ func rebase(ref *Ref, v *url.URL, notEqual bool) (Ref, bool) {
 
 	newBase.Fragment = u.Fragment
 
-	if strings.HasPrefix(u.Path, docPath) {
+	if u.Path == docPath || strings.HasPrefix(u.Path, docPath+"/") {
+		// same document, or below it (the name of a sibling document may start with this one's)
 		newBase.Path = strings.TrimPrefix(u.Path, docPath)
 	} else {
 		newBase.Path = strings.TrimPrefix(u.Path, v.Path)
